@@ -14,7 +14,9 @@ type NRProver struct {
 	SAcc     *revocation.SignedAccumulator
 	R2, R3   *big.Int
 	Rand     map[string]*big.Int // alpha, beta, delta, epsilon, zeta
-	cr, cu   *big.Int
+	// ForceC, if set, replaces C_r and C_u by this value (0 or N: not a group element)
+	ForceC *big.Int
+	cr, cu *big.Int
 }
 
 // NewNRProver draws honest randomness. alphaRand is the randomiser shared with the credential proof.
@@ -46,6 +48,13 @@ func (p *NRProver) Commit() []*big.Int {
 	g, h := p.PK.G, p.PK.H
 	p.cr = mulmod(n, new(big.Int).Exp(g, p.R2, n), new(big.Int).Exp(h, p.R3, n))
 	p.cu = mulmod(n, p.U, new(big.Int).Exp(h, p.R2, n))
+	if p.ForceC != nil {
+		p.cr, p.cu = new(big.Int).Set(p.ForceC), new(big.Int).Set(p.ForceC)
+		if new(big.Int).Mod(p.ForceC, n).Sign() == 0 {
+			z := func() *big.Int { return big.NewInt(0) }
+			return []*big.Int{p.cr, p.cu, p.Nu, z(), z(), z()}
+		}
+	}
 	neg := func(x *big.Int) *big.Int { return new(big.Int).Neg(x) }
 	tcr := mulmod(n, PowSigned(g, p.Rand["epsilon"], n), PowSigned(h, p.Rand["zeta"], n))
 	tnu := mulmod(n, PowSigned(p.cu, p.Rand["alpha"], n), PowSigned(h, neg(p.Rand["beta"]), n))
